@@ -74,6 +74,9 @@ def jobs(tier):
                          unwind=max(rows, nth) + 4, functions=["KMeansppCenters"], object_bits=10,
                          bound="concrete rows=%d, threads=%d (outer seeding loop is data dependent); one seeding round" % (rows, nth),
                          clause="k-means++ distance pass: every row is handed to exactly one worker (counts above / not dividing the row count, and one)"))
+    J.append(Job("GetNProcessor", "C13/nproc.c", entry="h_GetNProcessor", srcs=[], kind="proof", defines={}, functions=["GetNProcessor"],
+                 bound="all return values of sysconf (assumed contract: an arbitrary long); loop-free",
+                 clause="detected thread count is at least one"))
     J.append(Job("index_map", "C13/index_map.c", srcs=["metricspace.c", "matrix.c", "vector.c", "memwrapper.c", "numeric.c"], kind="bounded",
                  defines={"VC_NMAX": 64}, functions=["square_to_condensed_index"], timeout=900,
                  bound="n symbolic <= 64 (64-bit multiply/divide facts did not finish for larger n on any back end); loop-free",
